@@ -168,18 +168,25 @@ func (mdb *MassDBV1) prePlotWork(cache *MemCache) error {
 			logging.CPrint(logging.ERROR, "fail on writing cache to file", logging.LogFormat{"err": err, "n": n})
 			return err
 		}
-		hmA.data.Sync() // write pre-plot data first
+		if err := hmA.data.Sync(); err != nil { // write pre-plot data first
+			return err
+		}
 
 		hmA.checkpoint = startPoint + 1
-		hmA.UpdateCheckpoint()
-		hmA.data.Sync() // then write new checkpoint
+		if err := hmA.UpdateCheckpoint(); err != nil {
+			return err
+		}
+		if err := hmA.data.Sync(); err != nil { // then write new checkpoint
+			return err
+		}
 		startPoint = endPoint
 	}
 
 	hmA.checkpoint = hmA.volume
-	hmA.UpdateCheckpoint()
-	hmA.data.Sync()
-	return nil
+	if err := hmA.UpdateCheckpoint(); err != nil {
+		return err
+	}
+	return hmA.data.Sync()
 }
 
 func (mdb *MassDBV1) plotWork(cache *MemCache) error {
@@ -258,16 +265,23 @@ func (mdb *MassDBV1) plotWork(cache *MemCache) error {
 			logging.CPrint(logging.ERROR, "fail on writing cache to file", logging.LogFormat{"err": err, "n": n})
 			return err
 		}
-		hmB.data.Sync() // write plot data first
+		if err := hmB.data.Sync(); err != nil { // write plot data first
+			return err
+		}
 
 		hmB.checkpoint = startPoint + 1
-		hmB.UpdateCheckpoint()
-		hmB.data.Sync() // then update checkpoint
+		if err := hmB.UpdateCheckpoint(); err != nil {
+			return err
+		}
+		if err := hmB.data.Sync(); err != nil { // then update checkpoint
+			return err
+		}
 		startPoint = endPoint
 	}
 
 	hmB.checkpoint = half
-	hmB.UpdateCheckpoint()
-	hmB.data.Sync()
-	return nil
+	if err := hmB.UpdateCheckpoint(); err != nil {
+		return err
+	}
+	return hmB.data.Sync()
 }
